@@ -200,6 +200,10 @@ func handleLTrim(params internal.HandlerFuncParams) ([]byte, error) {
 	// If start and end indices are negative, calculate them from the end of the list
 	if start < 0 {
 		start = len(list) + start
+		// A start that lies before the head of the list is clamped to the head.
+		if start < 0 {
+			start = 0
+		}
 	}
 	if end < 0 {
 		end = len(list) + end
